@@ -437,6 +437,8 @@ fn contents() -> Vec<Option<Vec<u8>>> {
         Some(vec![0xff, 0xfe, b'\n']),
         Some(b"x\ny\nx\ny\n".to_vec()),
         Some(b"x\r\ny\n".to_vec()),
+        // CRLF and no final newline (both style clauses at once)
+        Some(b"x\r\ny".to_vec()),
     ]
 }
 
@@ -561,7 +563,7 @@ pub fn run(opts: Opts) -> i32 {
     report.set_rule(
         "every patch of <=2 ops (<=3 over a reduced op set in thorough) from {Add p body, Delete p, Update p [Move q] hunks} with \
          p,q in {a,b,d/c,e/f,a/z (parent is a file)}, 12 hunk lists over lines {x,y,z,w,''}, plus 16 malformed envelopes, applied to every workspace state \
-         (a in 9 contents incl. empty/CRLF/no-final-newline/invalid UTF-8/mixed; b, d/c from a tier-dependent subset); a case is \
+         (a in 10 contents incl. empty/CRLF/no-final-newline/CRLF without a final newline/invalid UTF-8/mixed; b, d/c from a tier-dependent subset); a case is \
          distinct by (workspace state, patch text); non-trivial = the patch parses (reference reaches the op loop)",
     );
     report.assume("reference model: first match at or after the cursor; a hunk without context appends; an empty file has zero lines; failure reasons not compared");
